@@ -11,4 +11,5 @@ if ! go build -tags verif -o "$w/bin-plain" ./harness/c07 2> "$w/build2.log"; th
   cat "$w/build2.log" >&2; echo "TOOL-ERROR: plain build failed" >&2; exit 2
 fi
 [ "${1:-}" = "--warm" ] && exit 0
+{ flock -u 9 && exec 9>&-; } 2>/dev/null  # the build is done: release the shared lock on /repo's working tree (.work/repo.lock)
 VERIF_C07_PLAIN="$w/bin-plain" exec "$w/bin" "$@"
